@@ -19,11 +19,14 @@ func vRank(u options.Upstream) int {
 }
 
 // registration order: rewrite rules first (longest pattern first), then plain paths, longest first
-// verif: unwind=8 strlen=8
+// verif: unwind=8 strlen=8 tunwind=10
 func vh_C17_order() {
 	n := 2 + ndChoice("upstreams", 2)
+	if verifThorough() {
+		n = 2 + ndChoice("upstreams-thorough", 3)
+	}
 	ups := make([]options.Upstream, n)
-	ids := []string{"u0", "u1", "u2"}
+	ids := []string{"u0", "u1", "u2", "u3"}
 	for i := range ups {
 		ups[i].ID = ids[i]
 		ups[i].Path = ndString("path")
@@ -70,7 +73,7 @@ func vh_C17_order() {
 }
 
 // the client's query survives a rewrite whose target carries its own query
-// verif: unwind=8 strlen=8
+// verif: unwind=8 strlen=8 tunwind=10
 func vh_C17_rewrite_query() {
 	a, b := ndString("client-id"), ndString("client-lang")
 	orig := url.Values{"id": {a}, "lang": {b}}
